@@ -95,10 +95,30 @@ def exec_tile(case):
 
 @st.composite
 def strat_tile(draw, tier):
-    return {"planetary": draw(st.booleans()), "depth": draw(st.integers(0, 8 if tier == "quick" else 12)), "point": draw(gens.sky_points())}
+    return {"planetary": draw(st.booleans()), "depth": draw(st.one_of(st.integers(0, 8), st.integers(9, 22))), "point": draw(gens.sky_points())}
 
 
 def exec_pixel(case):
+    """a short SEQUENCE of pixel lookups in one process (state kept between lookups must not matter): the
+    generated lookup, optionally preceded by its mirror image in the other coordinate system (same tile
+    position, sky rotated by pi) and/or by a lookup at another depth"""
+    outs = []
+    for pre in case.get("before", []):
+        c2 = dict(case)
+        c2.pop("before", None)
+        if pre == "mirror":
+            c2["planetary"] = not case["planetary"]
+            c2["point"] = dict(case["point"], lon=case["point"]["lon"] + math.pi)
+        elif pre == "other-depth":
+            c2["depth"] = max(0, case["depth"] - 1)
+        outs.append(exec_pixel_one(c2))
+    o = exec_pixel_one(case)
+    if case.get("before"):
+        o.classes.append("after-" + "+".join(case["before"]))
+    return o
+
+
+def exec_pixel_one(case):
     from toasty import toast
 
     planetary = case["planetary"]
@@ -111,13 +131,20 @@ def exec_pixel(case):
     with toasty_call("pixel", f"toast_pixel_for_point({depth}, {lat!r}, {lon!r}, {sysname})"):
         tile, x, y = toast.toast_pixel_for_point(depth, lat, lon, coordsys=cs_of(planetary))
     pos = tuple(tile.pos)
-    c, inc = rt.tile_corners(*pos, planetary=planetary)
-    if not rt.point_in_tile(p, c, inc, 1e-9):
+    if pos[0] != depth:
+        raise Violation("contains", f"pixel lookup at depth {depth} returned a tile of level {pos[0]}")
+    if depth >= 1:
+        c, inc = rt.tile_corners(*pos, planetary=planetary)
+    if depth >= 1 and not rt.point_in_tile(p, c, inc, 1e-9):
         raise Violation("contains", f"{sysname} pixel lookup of (lon {lon!r}, lat {lat!r}) at depth {depth} returned tile {pos}, which does not contain the point")
     pc = rt.pixel_centres(*pos, planetary=planetary)
     d = rt.ang_dist(pc, p)
     i_star, j_star = np.unravel_index(d.argmin(), d.shape)
-    if not (np.isfinite(x) and np.isfinite(y)) or abs(x - j_star) > 2 or abs(y - i_star) > 2:
+    # on the seam of the level-0 / level-1 tiles one sky point lies on two edges of the square: every pixel
+    # whose centre is as near as the nearest one (to rounding) is an admissible answer
+    near = np.argwhere(d <= d.min() * (1 + 1e-6) + 1e-12)
+    ok_any = np.isfinite(x) and np.isfinite(y) and any(abs(x - j) <= 2 and abs(y - i) <= 2 for i, j in near)
+    if not ok_any:
         raise Violation(
             "pixel",
             f"{sysname} pixel lookup of (lon {lon!r}, lat {lat!r}) at depth {depth}: returned (x={x:.3f}, y={y:.3f}) in tile {pos}, nearest pixel centre is column {j_star}, row {i_star}",
@@ -136,8 +163,9 @@ def exec_pixel(case):
 def strat_pixel(draw, tier):
     return {
         "planetary": draw(st.booleans()),
-        "depth": draw(st.integers(1, 6 if tier == "quick" else 10)),
+        "depth": draw(st.integers(0, 6 if tier == "quick" else 10)),
         "point": draw(gens.sky_points(pole_margin=math.radians(1.0))),
+        "before": draw(st.sampled_from([[], [], ["mirror"], ["other-depth"], ["mirror", "other-depth"]])),
     }
 
 
